@@ -20,14 +20,22 @@ from icalendar.timezone import tzp
 ZONES = ["Europe/Berlin", "America/New_York", "Asia/Kolkata", "Australia/Lord_Howe", "America/Sao_Paulo", "Pacific/Auckland", "Etc/UTC", "Etc/GMT+5", "Zulu"]
 
 
+class _Day(date):
+    """a subclass of date that is not a datetime (pendulum.Date, freezegun's FakeDate ... are such types)"""
+
+
+class _Moment(datetime):
+    """a subclass of datetime"""
+
+
 def dec(x, provider=None):
     k = x["k"]
     if k == "none":
         return None
     if k == "date":
-        return date(*x["v"])
+        return _Day(*x["v"]) if x.get("sub") else date(*x["v"])
     if k == "naive":
-        return datetime(*x["v"])
+        return _Moment(*x["v"]) if x.get("sub") else datetime(*x["v"])
     if k == "utc":
         src = x.get("src") or (provider or tzp.name)
         if src == "pytz":
